@@ -10,6 +10,7 @@ CONSTANTS
  FixAdded = TRUE
  FixTag = TRUE
  FixClose = TRUE
+ FixDesc = TRUE
  Fine = TRUE
 SPECIFICATION Spec
 INVARIANTS TypeOK PostAligned PostTruthful PostResolves PostNoop PostNoopIff
